@@ -222,8 +222,10 @@ def leg_keys(keys, report):
     for key in keys:
         for site in ("top", "nested_head", "nested_tail", "forbid_known", "unknown_forbid", "unknown_collect", "unknown_kwargs_like",
                      "dict_field_key", "list_neighbour", "omit_default", "extra_out_key"):
+            if type(key) is not str and site in ("unknown_forbid", "unknown_collect", "unknown_kwargs_like", "dict_field_key", "extra_out_key"):
+                continue     # an instance of a str subclass is tried as a MAPPED key only (as data it is simply not a str)
             case = {"leg": "key", "key": key, "site": site}
-            what = f"key {key!r} at site {site}"
+            what = f"key {str.__repr__(key) if type(key) is not str else repr(key)} at site {site}"
             sig = {"check": "C19.key", "site": site}
             cls = dataclasses.make_dataclass("M", [("a", int), ("b", str, dataclasses.field(default="dflt"))])
             other = "zz" if key != "zz" else "yy"
@@ -425,6 +427,12 @@ class BadBytes(bytes):
         return "<not an expression>"
 
 
+class KeyEnum(str, enum.Enum):
+    X = "x-key"
+
+
+# mapped keys that are instances of str SUBCLASSES (str-mixin enum members, classes with a repr of their own): a key is its text
+KEYS += [SubStr("sub-key"), CodeStr("code-key"), KeyEnum.X]
 SUBCLASSED = [SubStr("a"), SubInt(1), CodeStr("x"), CodeInt(3), BadBytes(b"x")]
 CONSTANTS = [*SUBCLASSED, *KEYS, b"a\nb", b"'\"", bytearray(b"\n"), "a\\nb", "tail\\", 0, True, None, 1.5, float("inf"), 1j, Color.RED, BadRepr(),
              CodeRepr(), [1], (1,), ("a\nb",), {"k": "a\nb"}, frozenset({1}), object, len, ..., NotImplemented, range(3), b""]
